@@ -1,6 +1,8 @@
 package main
 
 import (
+	"go/ast"
+	"go/parser"
 	_ "embed"
 	"fmt"
 	"go/token"
@@ -197,7 +199,55 @@ func (w *World) renameAliases(all map[*ssa.Function]bool) {
 			w.Renamed = append(w.Renamed, m+" -> "+cands[0])
 		}
 	}
+	// a method that made no use of its receiver and became a plain function of the same name and signature: analysed
+	// under the old name, its parameters counted as before (the receiver, parameter 0, matches nothing any more)
+	for _, m := range missing {
+		if sigs[m] == "" || receiverPrefix(m) == "" {
+			continue
+		}
+		done := false
+		for _, a := range w.alias {
+			if a == m {
+				done = true
+			}
+		}
+		if done {
+			continue
+		}
+		base := m[len(receiverPrefix(m)):]
+		var cands, named []string
+		for _, f := range fresh {
+			if used[f] || receiverPrefix(f) != "" {
+				continue
+			}
+			if typesOnlySig(sigText(cur[f], w.Main.Pkg)) == typesOnlySig(sigs[m]) {
+				cands = append(cands, f)
+				if strings.EqualFold(f, base) {
+					named = append(named, f)
+				}
+			}
+		}
+		if len(named) == 1 {
+			cands = named
+		}
+		// a differently named candidate is accepted only when nothing else in the package could be meant
+		same := 0
+		for _, m2 := range missing {
+			if sigs[m2] != "" && typesOnlySig(sigs[m2]) == typesOnlySig(sigs[m]) {
+				same++
+			}
+		}
+		if len(cands) == 1 && (len(named) == 1 || same == 1) {
+			used[cands[0]] = true
+			w.alias[cur[cands[0]]] = m
+			recvDropped[cur[cands[0]]] = true
+			w.Renamed = append(w.Renamed, m+" -> "+cands[0]+" (receiver dropped)")
+		}
+	}
 }
+
+// recvDropped: functions analysed under the name of the method they used to be (see renameAliases).
+var recvDropped = map[*ssa.Function]bool{}
 
 // inlineNewHelpers inlines, to a fixpoint, every named function of the main package that is not in the baseline, is
 // called statically from exactly one site of the package, is used in no other way (no function value, no go/defer,
@@ -630,4 +680,34 @@ func structFieldOf(v ssa.Value, idx int, depth int) ssa.Value {
 		return structFieldOf(ph.Edges[0], idx, depth+1)
 	}
 	return nil
+}
+
+
+// typesOnlySig drops the parameter and result names from the text of a signature.
+func typesOnlySig(sig string) string {
+	e, err := parser.ParseExpr(sig)
+	if err != nil {
+		return sig
+	}
+	ft, ok := e.(*ast.FuncType)
+	if !ok {
+		return sig
+	}
+	list := func(fl *ast.FieldList) string {
+		if fl == nil {
+			return ""
+		}
+		var out []string
+		for _, f := range fl.List {
+			n := len(f.Names)
+			if n == 0 {
+				n = 1
+			}
+			for i := 0; i < n; i++ {
+				out = append(out, types.ExprString(f.Type))
+			}
+		}
+		return strings.Join(out, ",")
+	}
+	return "func(" + list(ft.Params) + ")(" + list(ft.Results) + ")"
 }
